@@ -1,10 +1,10 @@
 package harness
 
 import (
-	"math"
 	"encoding/base64"
 	"encoding/binary"
 	"fmt"
+	"math"
 	"sort"
 	"strings"
 	"sync"
@@ -35,12 +35,13 @@ type emWorld struct {
 }
 
 type utlInterp struct {
-	sl  *types.Slice[int]
-	set *types.Set[int]
-	mp  *types.Map[int, int]
+	sl       *types.Slice[int]
+	set      *types.Set[int]
+	mp       *types.Map[int, int]
 	mapQuiet bool
-	em  *emWorld
-	yst *utils.Yeast
+	mapRaw   bool // no call of the harness after the operation: the state is shown by VerifDump
+	em       *emWorld
+	yst      *utils.Yeast
 	// the last batch a Slice method handed out, kept the way a caller keeps it (socket.flush keeps the
 	// result of AllAndClear while the next Send pushes): it must not change under later operations,
 	// and writing to it must not change the Slice
@@ -73,6 +74,11 @@ func (it *utlInterp) Exec(line string) string {
 			it.mapQuiet = true
 			out := it.mapOp(t[2:])
 			it.mapQuiet = false
+			return out
+		case "mapr":
+			it.mapRaw = true
+			out := it.mapOp(t[2:])
+			it.mapRaw = false
 			return out
 		case "map":
 			return it.mapOp(t[2:])
@@ -227,6 +233,9 @@ func (it *utlInterp) setOp(t []string) string {
 
 func (it *utlInterp) mapOp(t []string) string {
 	st := func(res string) string {
+		if it.mapRaw {
+			return res + " ; " + mapDump(it.mp)
+		}
 		n := it.mp.Len() // before Keys(): listing the keys promotes the dirty map, which would hide a stale count
 		if it.mapQuiet {
 			return res + " ; len=" + fmt.Sprint(n) // the contents are not listed: listing walks the map and reorganises it
@@ -276,6 +285,8 @@ func (it *utlInterp) mapOp(t []string) string {
 	case "clear":
 		it.mp.Clear()
 		return st("ok")
+	case "len":
+		return st(fmt.Sprint(it.mp.Len()))
 	case "range": // visit until the n-th key (sorted output of what was visited)
 		n := atoi(t[1])
 		var seen []int
@@ -286,6 +297,45 @@ func (it *utlInterp) mapOp(t []string) string {
 		return st(fmt.Sprintf("visited=%d", len(seen)))
 	}
 	return "bad-op"
+}
+
+// mapDump renders the internal state of the Map (types/map_verif.go, tag verif) in the driver's format.
+func mapDump(m *types.Map[int, int]) string {
+	entries, amended, dirtyNil, misses := m.VerifDump()
+	sort.Slice(entries, func(i, j int) bool { return entries[i].Key < entries[j].Key })
+	stateStr := func(st, v int) string {
+		switch st {
+		case 1:
+			return "n"
+		case 2:
+			return "x"
+		}
+		return fmt.Sprintf("v%d", v)
+	}
+	var rd, dd []string
+	for _, e := range entries {
+		if e.InRead {
+			rd = append(rd, fmt.Sprintf("%d=%s", e.Key, stateStr(e.ReadState, e.ReadValue)))
+		}
+		if e.InDirty {
+			mark := ""
+			if e.InRead && !e.Same {
+				mark = "!"
+			}
+			dd = append(dd, fmt.Sprintf("%d=%s%s", e.Key, stateStr(e.DirtyState, e.DirtyValue), mark))
+		}
+	}
+	join := func(x []string) string {
+		if len(x) == 0 {
+			return "-"
+		}
+		return strings.Join(x, ",")
+	}
+	d := join(dd)
+	if dirtyNil {
+		d = "nil"
+	}
+	return fmt.Sprintf("R:%s A:%s D:%s M:%d", join(rd), b01(amended), d, misses)
 }
 
 // eight listener bodies with distinct code pointers
@@ -749,6 +799,109 @@ func famUtl(t *testing.T, r *Rec) {
 			r.Cover("map/" + strings.Fields(op)[2] + "/had=" + b01(had) + "/quiet=" + b01(quiet))
 			if out != want+" ; "+state() {
 				r.Violate("C20", "C20/map/"+strings.Fields(op)[2], fmt.Sprintf("%s => %s, want %s ; %s", op, out, want, state()), replay)
+				break
+			}
+		}
+	}
+	// --- Map, raw: no call of the harness between the operations, so the read map, the dirty map, the
+	// amended flag, the miss counter and expunged entries live across operations; after every operation the
+	// internal state (VerifDump) is compared with the model's, and the result with an ordinary map (monitor)
+	for s := 0; s < 2*nSeq; s++ {
+		it := &utlInterp{}
+		var replay []string
+		ref := map[int]int{}
+		op := "utl mapr new"
+		r.Op(op, it.Exec(op))
+		replay = append(replay, op)
+		r.scenarios++
+		nKeys := 2 + r.rng.IntN(5)
+		steps := 20 + r.rng.IntN(30)
+		for k := 0; k < steps; k++ {
+			key, v, v2 := r.rng.IntN(nKeys), r.rng.IntN(3), r.rng.IntN(3)
+			old, had := ref[key]
+			vb := func() string {
+				if !had {
+					return "none"
+				}
+				return fmt.Sprint(old)
+			}
+			var want string
+			switch c := r.rng.IntN(20); {
+			case c < 4:
+				op = fmt.Sprintf("utl mapr store %d %d", key, v)
+				ref[key] = v
+				want = "ok"
+			case c < 8:
+				op = fmt.Sprintf("utl mapr load %d", key)
+				want = vb()
+			case c < 10:
+				op = fmt.Sprintf("utl mapr loadorstore %d %d", key, v)
+				if had {
+					want = fmt.Sprintf("%d,1", old)
+				} else {
+					ref[key] = v
+					want = fmt.Sprintf("%d,0", v)
+				}
+			case c < 12:
+				op = fmt.Sprintf("utl mapr loadanddelete %d", key)
+				want = vb()
+				delete(ref, key)
+			case c < 14:
+				op = fmt.Sprintf("utl mapr delete %d", key)
+				delete(ref, key)
+				want = "ok"
+			case c < 15:
+				op = fmt.Sprintf("utl mapr swap %d %d", key, v)
+				want = vb()
+				ref[key] = v
+			case c < 16:
+				op = fmt.Sprintf("utl mapr cas %d %d %d", key, v, v2)
+				want = "0"
+				if had && old == v {
+					ref[key] = v2
+					want = "1"
+				}
+			case c < 17:
+				op = fmt.Sprintf("utl mapr cad %d %d", key, v)
+				want = "0"
+				if had && old == v {
+					delete(ref, key)
+					want = "1"
+				}
+			case c < 18:
+				op = "utl mapr len"
+				want = fmt.Sprint(len(ref))
+			case c < 19:
+				n := 1 + r.rng.IntN(4)
+				op = fmt.Sprintf("utl mapr range %d", n)
+				want = fmt.Sprintf("visited=%d", min(n, len(ref)))
+			default:
+				if r.rng.IntN(3) == 0 {
+					op = "utl mapr clear"
+					ref = map[int]int{}
+					want = "ok"
+				} else {
+					op = fmt.Sprintf("utl mapr load %d", nKeys+1) // a key never stored: a pure miss
+					want = "none"
+				}
+			}
+			out := it.Exec(op)
+			r.Op(op, out)
+			replay = append(replay, op)
+			res, dump, _ := strings.Cut(out, " ; ")
+			shape := "R"
+			if strings.Contains(dump, " A:1 ") {
+				shape += "/amended"
+			}
+			if strings.Contains(dump, "=x") {
+				shape += "/expunged"
+			}
+			if strings.Contains(dump, "D:nil") {
+				shape += "/dirty-nil"
+			}
+			r.Cover("mapr/" + strings.Fields(op)[2] + "/" + shape)
+			if res != want {
+				r.Violate("C20", "C20/mapr/"+strings.Fields(op)[2], fmt.Sprintf("%s => %s, want %s (an ordinary map holds %v)", op, res, want, ref), replay)
 				break
 			}
 		}
